@@ -441,6 +441,7 @@ def main(modname, argv=None):
         harness_problems.append(
             f"{len(not_reproduced)} solver model(s) did not reproduce on the real code: "
             + json.dumps(not_reproduced[0], default=str)[:800]
+            + (" ... all in " + os.environ["VERIF_DUMP_NOT_REPRODUCED"] if os.environ.get("VERIF_DUMP_NOT_REPRODUCED") and not json.dump(not_reproduced, open(os.environ["VERIF_DUMP_NOT_REPRODUCED"], "w"), default=str) else "")
         )
     if vacuous_items:
         harness_problems.append(f"{len(vacuous_items)} item(s) had no reachable assertion (vacuous): {vacuous_items[:3]}")
